@@ -31,11 +31,18 @@ def cases(tier, seed):
     return out
 
 
-def mutate_output(y):
-    """what a caller may do with a tensor the model returned: in-place arithmetic, overwriting it.  None of it may reach the model."""
-    ops = [lambda t: t.mul_(0.5), lambda t: t.div_(4.0), lambda t: t.__imul__(3.0), lambda t: t.neg_(), lambda t: t.relu_(), lambda t: t.add_(1.0),
-           lambda t: t.clamp_(-0.25, 0.25), lambda t: t.copy_(t * 2.0), lambda t: t.zero_()]
-    for f in ops:
+MUTATIONS = {
+    "mul_": lambda t: t.mul_(0.5), "div_": lambda t: t.div_(4.0), "imul": lambda t: t.__imul__(3.0), "neg_": lambda t: t.neg_(), "relu_": lambda t: t.relu_(),
+    "add_": lambda t: t.add_(1.0), "clamp_": lambda t: t.clamp_(-0.25, 0.25), "copy_": lambda t: t.copy_(t * 2.0), "zero_": lambda t: t.zero_(),
+}
+
+
+def mutate_output(y, only=None):
+    """what a caller may do with a tensor the library returned: in-place arithmetic, overwriting it.  None of it may reach
+    the model or the tensors the caller passed in."""
+    for name, f in MUTATIONS.items():
+        if only is not None and name != only:
+            continue
         try:
             f(y)
         except Exception:  # noqa  (a refusal is not a side effect)
@@ -315,9 +322,16 @@ def run_case(case, res):
                 qa = quantize_activation(x, q_t, s)
                 qa.dequantize()
                 ok = not m.writes_to_protected and all(a is b for a, b in zip(m.read(x).reshape(-1), X.reshape(-1)))
+                # ... nor may what the caller later does to the returned tensor reach the tensors that were passed in
+                mutate_output(qa)
+                later = list(m.writes_to_protected)
+                ok2 = not later and all(a is b for a, b in zip(m.read(x).reshape(-1), X.reshape(-1))) and m.read(s).reshape(-1)[0] is S.reshape(-1)[0]
             res.query("quantize_activation-does-not-modify-its-input", "ALG", "unsat" if ok else "sat", 0.0)
             if not ok:
                 res.candidate("nowrite-lib", "ALG", dict(kind="nowrite-act", qtype=case["qtype"], x=x_enc))
+            res.query("returned-tensor-does-not-alias-caller-tensors", "ALG", "unsat" if ok2 else "sat", 0.0, sub="in-place operations on the result of quantize_activation")
+            if ok and not ok2:
+                res.candidate("region-witness:result-aliases-caller-scale", "ALG", dict(kind="alias-act", qtype=case["qtype"], x=x_enc), note=str(later[:2]), exact=False)
         return
 
     if case["kind"] == "faults":
@@ -399,6 +413,19 @@ def replay(rec):
         x0 = x.clone()
         quantize_activation(x, wq.qt(inp["qtype"]), torch.tensor(0.05)).dequantize()
         return (not torch.equal(x, x0)), "quantize_activation modified its input", None
+    if inp["kind"] == "alias-act":
+        culprits = []
+        for name in MUTATIONS:
+            x = api.dec_tensor(inp["x"])
+            s = torch.tensor(0.05)
+            x0, s0 = x.clone(), s.clone()
+            qa = quantize_activation(x, wq.qt(inp["qtype"]), s)
+            mutate_output(qa, only=name)
+            if not torch.equal(x, x0) or not torch.equal(s, s0):
+                culprits.append(name)
+        # recorded finding: only copy_ from another quantized tensor writes through to the caller's scale
+        key = ["C13/quantized-tensor-aliases-caller-scale"] if culprits == ["copy_"] else None
+        return bool(culprits), f"in-place {culprits} on the tensor returned by quantize_activation(x, qtype, scale) modified the caller's x or scale", key
     if inp["kind"] == "nowrite-model":
         model, x = models.make(inp["model"], torch.float32)
         a_t = wq.qt(inp["act"]) if inp["act"] else None
